@@ -75,6 +75,7 @@ class ClassInfo:
         self.name = node.name
         self.qual = f"{module.name}.{node.name}"
         self.methods = {}
+        self.setters = {}      # property name -> FuncInfo of its @<name>.setter
         self.base_exprs = node.bases
 
 
@@ -119,9 +120,16 @@ class Project:
             for st in body:
                 if isinstance(st, (ast.FunctionDef, ast.AsyncFunctionDef)):
                     fi = FuncInfo(mod, st, cls=cls, parent=parent)
-                    self.functions[fi.qual] = fi
-                    if cls is not None:
-                        cls.methods[st.name] = fi
+                    is_setter = any(isinstance(d, ast.Attribute) and d.attr in ("setter", "deleter") for d in st.decorator_list)
+                    if is_setter and cls is not None:
+                        # @x.setter shares the getter's name: keep both (the getter stays `methods[x]`, under the plain qualified name)
+                        fi.qual = fi.qual + ".<setter>"
+                        cls.setters[st.name] = fi
+                        self.functions[fi.qual] = fi
+                    else:
+                        self.functions[fi.qual] = fi
+                        if cls is not None:
+                            cls.methods[st.name] = fi
                     visit(st.body, cls=None, parent=fi)
                 elif isinstance(st, ast.ClassDef) and parent is None and cls is None:
                     ci = ClassInfo(mod, st)
